@@ -13,7 +13,7 @@ Three legs (DESIGN.md section 5, C07):
 import json, os, re, shutil
 import lib, worlds, worldgen
 
-PREF = ("IMM", "CTOR", "TONL", "PKGO")
+PREF = ("IMM", "CTOR", "TONL", "PKGO", "IMPL")
 ONCE = ("TONL01", "PKGO01")
 ALLCODES = ["IMM01", "IMM02", "IMM03", "IMM04", "CTOR01", "CTOR02", "CTOR03", "TONL01", "TONL02", "TONL03", "PKGO01", "PKGO02", "PKGO03", "IMPL01", "IMPL02", "IMPL03"]
 
